@@ -21,7 +21,7 @@ RULE = ("the whole configuration lattice is enumerated: {TripleStream,QuadStream
         "BoundedFrameFlow, FlatTriples-, FlatQuads-, Graphs-, DatasetsFrameFlow, each with default and with matching "
         "logical type} x entry points {generic stream_frames(sink|generator), flat_stream_to_file, grouped_stream_to_file, "
         "sink.serialize; rdflib Graph.serialize(stream=|options=), flat_stream_to_file, grouped_stream_to_file} x inputs of "
-        "1, 3 and 5 statements. Oracle for every configuration that returns without raising: every stream the entry point "
+        "1, 3, 5 statements with fresh terms and 4, 6 statements re-using terms (single-row statements). Oracle for every configuration that returns without raising: every stream the entry point "
         "created or was given has an empty flow, and the bytes decode (pyjelly parser and reference decoder) to the input "
         "(documented quads->TRIPLES projection applied). Raising is always acceptable. Non-trivial = distinct accepted "
         "configurations.")
@@ -65,6 +65,16 @@ def plan(tier: str) -> dict:
 
 
 def inputs(arity: int, n: int) -> list:
+    if n < 0:
+        # "reuse" variant: after the first two statements every statement is a single row (no new entries),
+        # so partial last frames of exactly one row occur
+        out = []
+        for i in range(-n):
+            st = [("iri", "http://ex.org/s"), ("iri", "http://ex.org/p"), ("iri", f"http://ex.org/o{i % 2}")]
+            if arity == 4:
+                st.append(("iri", "http://ex.org/g") if i < 3 else ("default",))
+            out.append(tuple(st))
+        return out
     out = []
     graphs = [("iri", "http://ex.org/g1"), ("iri", "http://ex.org/g1"), ("bnode", "g2"), ("default",),
               ("iri", "http://ex.org/g1")]
@@ -78,7 +88,7 @@ def inputs(arity: int, n: int) -> list:
 
 
 def enumerate_configs(tier: str):
-    ns = (1, 3, 5)
+    ns = (1, 3, 5, -4, -6)
     for (ename, integ, explicit), logical, delimited, fs, fk, n in itertools.product(
             ENTRIES, LOGICALS, (True, False), (1, 3, 250), FLOW_KINDS, ns):
         flow_logicals = [None] if fk == "inferred" else [None, logical]
